@@ -384,6 +384,19 @@ pub fn gen_cell(rng: &mut Rng, b: &BuiltStack, with_insts: bool) -> RCell {
         }
         occ.entry((l, t)).or_default().push((a, bnd));
         cell.cuts.push((l, t, cl, c));
+        // the same track cut against its OTHER neighbour layer at the same crossing index (a different place on the track)
+        if rng.chance(1, 3) && l >= 1 && l + 1 < r.metals.len() {
+            let other = if cl == l + 1 { l - 1 } else { l + 1 };
+            let nco = cell.nperiods(r, other) as usize * r.metals[other].nsig();
+            if c < nco {
+                let ctr2 = r.metals[other].center(c);
+                let (a2, b2) = (ctr2 - r.metals[l].cutsize / 2, ctr2 + r.metals[l].cutsize / 2);
+                if a2 > 0 && b2 < span && !sig_occ(&cell, &occ, l, t).iter().any(|(x, y)| a2 <= *y + 1 && b2 >= *x - 1) {
+                    occ.entry((l, t)).or_default().push((a2, b2));
+                    cell.cuts.push((l, t, other, c));
+                }
+            }
+        }
     }
     // assignments: each wire piece used at most once
     let mut used: std::collections::HashSet<(usize, usize, i64)> = Default::default();
@@ -646,15 +659,37 @@ pub fn build_lib(b: &BuiltStack, cell: &RCell) -> Library {
     let mut lib = Library::new("c08lib");
     let subs: Vec<Ptr<Cell>> = cell.subs.iter().enumerate().map(|(i, s)| lib.cells.add(Layout::new(format!("sub{}", i), s.0, Outline::rect(s.1 as isize, s.2 as isize).unwrap()))).collect();
     let mut lay = Layout::new("top", cell.metals, Outline::rect(cell.nx as isize, cell.ny as isize).unwrap());
-    for i in &cell.insts {
+    for (k, i) in cell.insts.iter().enumerate() {
         let loc = (if i.rh { i.bbox.2 } else { i.bbox.0 }, if i.rv { i.bbox.3 } else { i.bbox.1 });
+        // every third instance is handed over through the equivalent entry point: a one-element array instance with the same
+        // location and reflections (the placer expands it before compilation)
+        if (k as i64 + cell.nx) % 3 == 0 {
+            use tet::array::{Array, ArrayInstance, Arrayable};
+            use tet::placement::{Placeable, Separation};
+            let arr = Ptr::new(Array { name: format!("arr{}", k), unit: Arrayable::Instance(subs[i.sub].clone()), count: 1, sep: Separation::new(None, None, None) });
+            lay.places.push(Placeable::Array(Ptr::new(ArrayInstance { name: i.name.clone(), array: arr, loc: Place::Abs(Xy::new(PrimPitches::x(loc.0 as isize), PrimPitches::y(loc.1 as isize))), reflect_vert: i.rv, reflect_horiz: i.rh })));
+            continue;
+        }
         lay.instances.add(Instance { inst_name: i.name.clone(), cell: subs[i.sub].clone(), loc: Place::Abs(Xy::new(PrimPitches::x(loc.0 as isize), PrimPitches::y(loc.1 as isize))), reflect_horiz: i.rh, reflect_vert: i.rv });
     }
+    // cuts and assignments through both equivalent entry points: pushed as values, or requested with the convenience methods
+    let by_method = (cell.nx + cell.ny + cell.cuts.len() as i64) % 2 == 0;
     for (l, t, cl, c) in &cell.cuts {
-        lay.cuts.push(TrackCross::new(TrackRef::new(*l, *t), TrackRef::new(*cl, *c)));
+        if by_method {
+            lay.cut(*l, *t, *c, if *cl == *l + 1 { RelZ::Above } else { RelZ::Below });
+        } else {
+            lay.cuts.push(TrackCross::new(TrackRef::new(*l, *t), TrackRef::new(*cl, *c)));
+        }
     }
-    for (net, l1, t1, l2, t2) in &cell.assigns {
-        lay.assignments.push(Assign::new(net.clone(), TrackCross::new(TrackRef::new(*l1, *t1), TrackRef::new(*l2, *t2))));
+    for (k, (net, l1, t1, l2, t2)) in cell.assigns.iter().enumerate() {
+        let relz = if *l2 == *l1 + 1 { RelZ::Above } else { RelZ::Below };
+        match (by_method, k % 2) {
+            (true, 0) => lay.assign(net.clone(), *l1, *t1, *t2, relz),
+            (true, _) => {
+                lay.net(net.clone()).at(*l1, *t1, *t2, relz);
+            }
+            _ => lay.assignments.push(Assign::new(net.clone(), TrackCross::new(TrackRef::new(*l1, *t1), TrackRef::new(*l2, *t2)))),
+        }
     }
     let _ = b;
     lib.cells.add(lay);
